@@ -1,4 +1,5 @@
 import MidoProofs.Props.C14
+import MidoProofs.Props.C14b
 import MidoProofs.Lemmas.Numeral
 #print axioms Mido.C14_parse_errors
 #print axioms Mido.C14_stream
@@ -6,3 +7,4 @@ import MidoProofs.Lemmas.Numeral
 #print axioms Mido.construct_text_err
 #print axioms Mido.parseInt_showInt
 #print axioms Mido.parseNat_showNat
+#print axioms Mido.C14_from_str_str
